@@ -204,7 +204,8 @@ def check_props(prop_id, extra_targets=()):
     """build Props/<id>.vo, run hygiene and assumption gates.
     returns dict(ok, obligations=[(name, ok, note)], log)"""
     target = "Props/%s.vo" % prop_id
-    ok, log = coq_make([target] + list(extra_targets))
+    # ... and the libraries the generated case files import (a changed model file must never meet a stale one of these)
+    ok, log = coq_make([target, "Model/Observe.vo", "Model/Files.vo", "Model/Hex.vo", "Spec/HexReader.vo"] + list(extra_targets))
     obligations = []
     names = theorem_names("Props/%s.v" % prop_id)
     if not ok:
